@@ -17,7 +17,7 @@ import (
 
 var c11Quotes = []quote{
 	{5, 100, 5, 100}, {1, 1000, 1, 1000}, {500, 1000, 250, 1000}, {1, 1, 1, 1}, {3, 1, 2, 1},
-	{7, 3, 1, 4}, {1000, 1, 1, 1000}, {29, 100, 46, 10}, {1, 2, 250, 1000}, {0, 1, 0, 1}, {46, 10, 29, 100},
+	{7, 3, 1, 4}, {1000, 1, 1, 1000}, {29, 100, 46, 10}, {1, 2, 250, 1000}, {0, 1, 0, 1}, {46, 10, 29, 100}, {350, 1000, 35, 100},
 }
 
 func c11OutScript(kind int) []byte {
@@ -186,6 +186,9 @@ type c11Sign struct {
 	Pre     int  `json:"presigned_mask"`
 	Insc    bool `json:"inscription_prev"`
 	HashAll bool `json:"-"`
+	// Hash of: 0 the compressed key (what the library's own P2PKH builders pay to), 1 the
+	// uncompressed form of the same key, 2 an unrelated key
+	PayTo int `json:"pays_to_key_form,omitempty"`
 }
 
 var c11Keys = testPrivKeys(8)
@@ -193,6 +196,12 @@ var c11Keys = testPrivKeys(8)
 func c11SignCheck(c c11Sign) (fs []rep.Finding) {
 	priv, pub := bec.PrivKeyFromBytes(bec.S256(), c11Keys[c.Key])
 	lock := refP2PKH(refHash160(pub.SerialiseCompressed()))
+	switch c.PayTo {
+	case 1:
+		lock = refP2PKH(refHash160(pub.SerialiseUncompressed()))
+	case 2:
+		lock = refP2PKH(fill(20, 0x5a))
+	}
 	if c.Insc {
 		lock = append(append([]byte(nil), lock...), c14Templates()["inscription"][25:]...)
 	}
@@ -288,7 +297,7 @@ func c11ErrCheck(c c11Err) (fs []rep.Finding) {
 
 func init() {
 	p := register(&Prop{ID: "C11", Level: "exploration",
-		Rule: "exhaustive: (accounting) every multiset-ordered choice of <=2 (quick) / <=3 (thorough) outputs from 13 script kinds (P2PKH, OP_RETURN alone/empty/1/75/76-byte, OP_FALSE OP_RETURN with 65536-byte payload and bare, `00`, `00 51 6a`, empty, OP_RETURN not first) x inputs 0..3 x signing state (none/all/first/short scripts) x 11 fee quotes (independent std/data rates incl. >1 sat/byte, non-dyadic rates, zero) x in-out placed at {fee-1, fee, fee+1, out>in, equal, ample} relative to the big-integer reference fee of the actual and of the estimated size: TotalBytes=len(bytes)=Std+Data, fee = floor+floor, predicates exact; (signed) 8 keys x nIn 1..3 x nOut 0..2 x every subset of inputs pre-signed x plain/inscription spent script: EstimateSize >= size after FillAllInputs; (counts) 252/253/254 outputs with 0..2 inputs and 252/253/254 inputs with 0..2 outputs x quotes x fee relations; (errors) every position x 7 missing/unsupported spent scripts x signed/unsigned: every estimator returns an error; (quote forms) the same quotes assembled through 5 other call sequences (Fee objects labelled with the other type, unlabelled, through FeeQuotes.UpdateMinerFees, update of existing entries, relabelled copy); (builders) outputs built by AddOpReturnOutput / AddOpReturnPartsOutput / CreateOpReturnOutput for item lengths {1,2,75,76,255,256,65535,65536} (single and pairs) and AddHashPuzzleOutput: script equals the reference layout and is counted as data / standard bytes accordingly. distinct_nontrivial = distinct (tx bytes, quote, relation) triples",
+		Rule: "exhaustive: (accounting) every multiset-ordered choice of <=2 (quick) / <=3 (thorough) outputs from 13 script kinds (P2PKH, OP_RETURN alone/empty/1/75/76-byte, OP_FALSE OP_RETURN with 65536-byte payload and bare, `00`, `00 51 6a`, empty, OP_RETURN not first) x inputs 0..3 x signing state (none/all/first/short scripts) x 11 fee quotes (independent std/data rates incl. >1 sat/byte, non-dyadic rates, zero) x in-out placed at {fee-1, fee, fee+1, out>in, equal, ample} relative to the big-integer reference fee of the actual and of the estimated size: TotalBytes=len(bytes)=Std+Data, fee = floor+floor, predicates exact; (signed) 8 keys x nIn 1..3 x nOut 0..2 x every subset of inputs pre-signed x plain/inscription spent script, paying to the hash of the compressed key, of the uncompressed form of the same key, or of another key: EstimateSize >= size after FillAllInputs; (counts) 252/253/254 outputs with 0..2 inputs and 252/253/254 inputs with 0..2 outputs x quotes x fee relations; (errors) every position x 7 missing/unsupported spent scripts x signed/unsigned: every estimator returns an error; (quote forms) the same quotes assembled through 5 other call sequences (Fee objects labelled with the other type, unlabelled, through FeeQuotes.UpdateMinerFees, update of existing entries, relabelled copy); (builders) outputs built by AddOpReturnOutput / AddOpReturnPartsOutput / CreateOpReturnOutput for item lengths {1,2,75,76,255,256,65535,65536} (single and pairs) and AddHashPuzzleOutput: script equals the reference layout and is counted as data / standard bytes accordingly. distinct_nontrivial = distinct (tx bytes, quote, relation) triples",
 	})
 	sA := NewSpace(p, "accounting", c11Check)
 	sS := NewSpace(p, "signed", c11SignCheck)
@@ -392,6 +401,9 @@ func init() {
 				for nout := 0; nout <= 2; nout++ {
 					for pre := 0; pre < 1<<nin; pre++ {
 						sc = append(sc, c11Sign{Key: k, NIn: nin, NOut: nout, Pre: pre}, c11Sign{Key: k, NIn: nin, NOut: nout, Pre: pre, Insc: true})
+						if nout <= 1 {
+							sc = append(sc, c11Sign{Key: k, NIn: nin, NOut: nout, Pre: pre, PayTo: 1}, c11Sign{Key: k, NIn: nin, NOut: nout, Pre: pre, PayTo: 2})
+						}
 					}
 				}
 			}
